@@ -204,11 +204,11 @@ def r02_6(run, model):
 
 
 def run(run, model):
-    r02_1(run, model)
-    r02_2(run, model)
-    r02_3(run, model)
-    r02_5(run, model)
-    r02_6(run, model)
+    run.try_rule(r02_1, model)
+    run.try_rule(r02_2, model)
+    run.try_rule(r02_3, model)
+    run.try_rule(r02_5, model)
+    run.try_rule(r02_6, model)
     run.rule("R02.7", "Go type declarations are collected through every type former: the runtime-type collector is a structural traversal of Ty "
                       "that handles every child-carrying former (shared audit with C07 R07.2)")
     cv = T.child_variants(model)
